@@ -200,7 +200,12 @@ impl<'a> ModelRun<'a> {
             }
             b.dumps.push((
                 c.clone(),
-                self.st.contracts.get(c).map(|mc| (mc.store.iter().map(|(k, v)| (k.clone(), v.clone())).collect::<Dump>(), self.st.balance(c))),
+                self.st.contracts.get(c).map(|mc| {
+                    let mut store: Dump = mc.store.iter().map(|(k, v)| (k.clone(), v.clone())).collect();
+                    // the smart query is answered by the contract's own code
+                    store.push((super::puppet::ANSWERED_BY.to_vec(), vec![mc.code_id as u8]));
+                    (store, self.st.balance(c))
+                }),
             ));
         }
         if w.ext {
